@@ -12,27 +12,54 @@
 EXTENDS Integers, Sequences, FiniteSets, TLC, Json, Randomization
 CONSTANTS Mode, MaxBatch, D
 
-Names == 0..4            \* f0 f1 nx d d/x
+\* names: 0 f0, 1 f1, 2 nx (absent), 3 d (directory), 4 d/x (absent), 5 x, 6 cw, 7 ln (symlink to f0), resolved
+\* against a directory descriptor: dir 0 = the world's root, 1 = its subdirectory d, 2 = None (AT_FDCWD: the process'
+\* working directory, which holds only cw and is used read-only).  Every pair of same-typed constructor arguments
+\* is distinguishable: f0 exists in the root but not in d, x only makes sense in d, cw only in the working directory;
+\* two creation modes; three rename flag values; two registered buffers; two protocols.
 Handles == 0..2
+RenameArgs == {<<0,0,0,2,0>>, <<0,2,0,0,0>>, <<0,1,0,4,0>>, <<0,3,0,2,0>>, <<0,2,0,3,0>>, <<0,0,0,1,0>>,   \* within the root
+               <<0,0,0,1,1>>, <<0,0,0,1,2>>, <<0,0,0,2,2>>,                                                 \* NOREPLACE / EXCHANGE
+               <<0,0,1,0,0>>, <<1,5,0,2,0>>, <<1,0,0,0,0>>, <<0,1,1,5,0>>, <<1,0,1,5,0>>, <<0,1,1,5,1>>}    \* across root and d
 OpSpace ==
-    [op : {"openat"}, name : Names, fl : 0..3, h : 0..1]
+    [op : {"openat"}, dir : {0}, name : 0..4, fl : 0..3, h : 0..1, mode : {0}]
+    \cup [op : {"openat"}, dir : {0}, name : {7}, fl : {0, 3}, h : {0}, mode : {0}]
+    \cup [op : {"openat"}, dir : {0}, name : {2}, fl : {1, 2}, h : {0}, mode : {1}]
+    \cup [op : {"openat"}, dir : {1}, name : {0, 5}, fl : {0, 1}, h : 0..1, mode : {0}]
+    \cup [op : {"openat"}, dir : {2}, name : {6, 0}, fl : {0}, h : 0..1, mode : {0}]
     \cup [op : {"close"}, h : Handles]
     \cup [op : {"readv"}, h : 0..1, len : 0..1]          \* handles 0,1 hold files/directories, handle 2 sockets:
     \cup [op : {"writev"}, h : 0..1, data : 0..1]        \* no transfer that could block forever on a socket
     \cup [op : {"readfix"}, h : 0..1, buf : 0..1, len : 0..1]   \* read/write through a registered buffer
     \cup [op : {"writefix"}, h : 0..1, buf : 0..1, data : 0..1]
-    \cup [op : {"statx"}, name : Names]
-    \cup [op : {"mkdirat"}, name : {2, 3, 4}]
-    \cup [op : {"unlinkat"}, name : Names, rmdir : 0..1]
-    \cup {[op |-> "renameat", name |-> p[1], name2 |-> p[2]] : p \in {<<0, 2>>, <<2, 0>>, <<1, 4>>, <<3, 2>>, <<2, 3>>, <<0, 1>>}}
-    \cup [op : {"socket"}, kind : 0..1, h : {2}]
+    \cup [op : {"statx"}, dir : {0}, name : {0, 1, 2, 3, 4, 7}]
+    \cup [op : {"statx"}, dir : {1}, name : {0, 5}]
+    \cup [op : {"statx"}, dir : {2}, name : {6, 0}]
+    \cup [op : {"statx"}, empty : {1}, h : Handles]      \* the file behind a handle (empty path, AT_EMPTY_PATH)
+    \cup [op : {"mkdirat"}, dir : {0}, name : {2, 3, 4}, mode : 0..1]
+    \cup [op : {"mkdirat"}, dir : {1}, name : {2}, mode : {0}]
+    \cup [op : {"unlinkat"}, dir : {0}, name : {0, 1, 2, 3, 4, 7}, rmdir : 0..1]
+    \cup [op : {"unlinkat"}, dir : {1}, name : {0, 5}, rmdir : 0..1]
+    \cup {[op |-> "renameat", dir |-> p[1], name |-> p[2], dir2 |-> p[3], name2 |-> p[4], rf |-> p[5]] : p \in RenameArgs}
+    \cup [op : {"socket"}, kind : 0..1, proto : {0}, h : {2}]
+    \cup {[op |-> "socket", kind |-> 1, proto |-> 17, h |-> 2], [op |-> "socket", kind |-> 1, proto |-> 6, h |-> 2]}  \* udp ok, tcp on a datagram socket refused
     \cup [op : {"timeout"}]
     \cup [op : {"poll"}, h : 0..1, ev : 0..1]            \* always ready (or EBADF): a poll that never fires never completes
     \cup [op : {"poll"}, h : {2}, ev : {1}]
 
 Has(o, f) == f \in DOMAIN o
-NamesOf(o) == (IF Has(o, "name") THEN {o.name} ELSE {}) \cup (IF Has(o, "name2") THEN {o.name2} ELSE {})
-NameConflict(x, y) == x = y \/ {x, y} = {3, 4}
+Dflt(o, f) == IF Has(o, f) THEN o[f] ELSE 0
+\* identity of the object a (directory, name) pair resolves to; >= 100: in the working directory (never changed)
+PId(dir, name) == IF dir = 0 THEN name
+                  ELSE IF dir = 1 THEN (CASE name = 0 -> 8 [] name = 5 -> 4 [] name = 2 -> 9 [] OTHER -> 50 + name)
+                  ELSE 100 + name
+NamesOf(o) == (IF Has(o, "name") THEN {PId(Dflt(o, "dir"), o.name)} ELSE {})
+              \cup (IF Has(o, "name2") THEN {PId(Dflt(o, "dir2"), o.name2)} ELSE {})
+InsideD == {4, 8, 9}
+NameConflict(x, y) == /\ x < 100 /\ y < 100
+                      /\ \/ x = y
+                         \/ (x = 3 /\ y \in InsideD) \/ (y = 3 /\ x \in InsideD)
+                         \/ {x, y} = {0, 7}                     \* ln is a symbolic link to f0
 \* handles alias names (a handle may be open on any file): whatever changes file content or size conflicts
 \* with whatever observes it, whichever handle or name either goes through
 Mutates(o) == o.op \in {"writev", "writefix"} \/ (o.op = "openat" /\ o.fl = 3)   \* fl 3 = O_RDWR|O_TRUNC
@@ -43,7 +70,12 @@ BufClash(a, b) == \/ Has(a, "buf") /\ Has(b, "buf") /\ a.buf = b.buf
                   \* entries carry descriptor NUMBERS fixed when the batch is built: once a batch closes a handle,
                   \* which file that number names afterwards depends on the kernel's descriptor allocation order
                   \/ Has(a, "h") /\ Has(b, "h") /\ a.h = b.h /\ "close" \in {a.op, b.op}
+\* statx through a handle sees the link count of whatever file the handle is open on: it conflicts with
+\* everything that adds or removes names
+HandleStat(o) == o.op = "statx" /\ Has(o, "empty")
+ChangesNames(o) == o.op \in {"unlinkat", "renameat", "mkdirat"} \/ (o.op = "openat" /\ o.fl \in {1, 2})
 Conflict(a, b) ==
+    \/ (HandleStat(a) /\ ChangesNames(b)) \/ (HandleStat(b) /\ ChangesNames(a))
     \/ Has(a, "h") /\ Has(b, "h") /\ a.h = b.h
     \/ \E x \in NamesOf(a), y \in NamesOf(b) : NameConflict(x, y)
     \/ a.op = "timeout" /\ b.op = "timeout"
